@@ -358,7 +358,7 @@ func (propC06) ID() string { return "C06" }
 
 var c06Variants = []string{"mvp7-0", "mvp7-1", "mvp8-0"}
 
-func c06Alphabet(cores int, withFlush bool) []rigReq {
+func c06Alphabet(v string, cores int, withFlush bool) []rigReq {
 	var a []rigReq
 	for c := 0; c < cores; c++ {
 		for _, k := range []byte{'r', 'w'} {
@@ -370,7 +370,12 @@ func c06Alphabet(cores int, withFlush bool) []rigReq {
 		}
 		if withFlush {
 			// early, and inside the window between the line fill and the state update
-			for _, d := range []int{2, 311, 313} {
+			ds := []int{2, 311, 313}
+			if v == "mvp8-0" {
+				// MVP-8 fetches through L3: 50 + 309 steps, then holds the L3 line lock for 50 more
+				ds = append(ds, 380)
+			}
+			for _, d := range ds {
 				a = append(a, rigReq{Core: c, Kind: 'f', Delay: d})
 			}
 		}
@@ -397,7 +402,7 @@ func (p propC06) rigShards() [][3]int {
 	var sh [][3]int
 	for vi := range c06Variants {
 		for _, cores := range []int{2, 3} {
-			n := len(c06Alphabet(cores, true))
+			n := len(c06Alphabet(c06Variants[vi], cores, true))
 			for f := 0; f < n; f++ {
 				sh = append(sh, [3]int{vi, cores, f})
 			}
@@ -406,15 +411,23 @@ func (p propC06) rigShards() [][3]int {
 	return sh
 }
 
+// rigRandom: number of cases with random rig histories (each case runs 40 histories)
+func (p propC06) rigRandom(tier string) int {
+	if tier == "thorough" {
+		return 1500
+	}
+	return 48
+}
+
 func (p propC06) NumCases(tier string) int {
-	n := len(p.rigShards())
+	n := len(p.rigShards()) + p.rigRandom(tier)
 	if tier == "thorough" {
 		return n + 5000
 	}
 	return n + 150
 }
 func (propC06) Rule() string {
-	return "(a) full CPUs: programs of families 'hot' (accesses on 1-4 hot lines, branches so that flushes interrupt transfers), 'memdep' and 'memwalk' on MVP-7.0, 7.1 and 8 with 1-4 cores; at every cycle boundary (tick sites of the main loop, the flush drain and the final drain) a snapshot of protocol states, L1/L3 lines, lock counters, outstanding commands and memory is taken and invariants I1 (single Modified owner, no Shared beside it), I2 (Shared copy equals the next level), I3 (resident <=> state != Invalid outside a transfer), I4 (no duplicate and no misaligned L1/L3 lines), I5 (lock counters never negative, writers exclusive) are asserted. (b) the pipeline-less rig: every sequence of up to 3 (2 cores) / 2 (3 cores) requests in the quick tier and 4 / 3 in the thorough tier over {read, write, flush-this-core} on 2 lines with issue offsets {0, 1, after quiescence} (flush after 2, 311, 313 steps, i.e. early and inside the window between line fill and state update), stepped to quiescence with the same invariants at every step, every read must return the last completed write, and after export memory must hold the last completed write of every byte. distinct_nontrivial = rig sequences executed + distinct non-trivial programs."
+	return "(a) full CPUs: programs of families 'hot' (accesses on 1-4 hot lines, branches so that flushes interrupt transfers), 'memdep' and 'memwalk' on MVP-7.0, 7.1 and 8 with 1-4 cores; at every cycle boundary (tick sites of the main loop, the flush drain and the final drain) a snapshot of protocol states, L1/L3 lines, lock counters, outstanding commands and memory is taken and invariants I1 (single Modified owner, no Shared beside it), I2 (Shared copy equals the next level), I3 (resident <=> state != Invalid outside a transfer), I4 (no duplicate and no misaligned L1/L3 lines), I5 (lock counters never negative, writers exclusive) are asserted. (b) the pipeline-less rig: every sequence of up to 3 (2 cores) / 2 (3 cores) requests in the quick tier and 4 / 3 in the thorough tier over {read, write, flush-this-core} on 2 lines with issue offsets {0, 1, after quiescence} (flush after 2, 311, 313 steps, and 380 on MVP-8, i.e. early, inside the window between line fill and state update, and while the L3 line lock is held), stepped to quiescence with the same invariants at every step, every read must return the last completed write, and after export memory must hold the last completed write of every byte. plus seeded random rig histories of 8-24 mostly overlapping requests from 3-4 cores on 2 lines (1920 quick / 60000 thorough). distinct_nontrivial = rig sequences executed + distinct non-trivial programs."
 }
 func (propC06) Assumptions() []string {
 	return []string{"at most the first 60000 cycle boundaries of a run are snapshotted (a run that needs more is a hang, C07)", "'transfer in progress' = the core holds a line lock for that line or a snoop command for (core, line) is outstanding", "rig requests are serialised per core (one outstanding request per core), as one execute unit drives one cache controller", "a rig sequence that does not reach quiescence within 6000 steps is counted as stuck (a termination matter, C07), not as a coherence violation"}
@@ -450,7 +463,7 @@ func (p propC06) RunCase(tier string, seed int64, idx int) caseResult {
 	if idx < len(sh) {
 		v := c06Variants[sh[idx][0]]
 		cores := sh[idx][1]
-		alpha := c06Alphabet(cores, true)
+		alpha := c06Alphabet(v, cores, true)
 		depth := p.rigDepth(tier, cores)
 		var rec func(seq []rigReq)
 		rec = func(seq []rigReq) {
@@ -484,8 +497,42 @@ func (p propC06) RunCase(tier string, seed int64, idx int) caseResult {
 		}
 		return res
 	}
+	if idx < len(sh)+p.rigRandom(tier) {
+		// random rig histories: deeper than the exhaustive part (8-24 requests, 3-4 cores, 2 lines)
+		ri := idx - len(sh)
+		r := caseRand(seed, "C06rig", ri)
+		v := c06Variants[ri%len(c06Variants)]
+		for h := 0; h < 40; h++ {
+			cores := 3 + r.Intn(2)
+			var seq []rigReq
+			for k := 8 + r.Intn(17); k > 0; k-- {
+				// mostly overlapping requests (short delays) on two lines, so that sharers, owners and busy snoops coexist
+				q := rigReq{Core: r.Intn(cores), Kind: "rrrwwwf"[r.Intn(7)], Line: r.Intn(2), Delay: []int{0, 0, 0, 1, 2, 5, 20, 311, -1}[r.Intn(9)]}
+				q.Word = q.Line
+				if q.Kind == 'f' && r.Intn(4) != 0 {
+					q.Kind = 'r'
+				}
+				seq = append(seq, q)
+			}
+			o := runRig(v, cores, seq)
+			res.Runs++
+			res.DistinctN++
+			res.Stats["rig-sequences"]++
+			res.Stats["rig-random-sequences"]++
+			res.Stats["snapshots"] += int64(o.Snapshots)
+			res.Stats["rig-reads-completed"] += int64(o.Reads)
+			res.Stats["rig-writes-completed"] += int64(o.Writes)
+			if o.Stuck {
+				res.Stats["rig-stuck-sequences"]++
+			}
+			if o.Violation != "" && len(res.Findings) < 3 {
+				res.Findings = append(res.Findings, finding{Config: config{V: v, EU: cores}, Class: "msi-invariant", Sub: o.Inv, Site: "rig", Detail: fmt.Sprintf("rig %s %d cores, sequence %v: %s", v, cores, seq, o.Violation), Extra: fmt.Sprintf("R %s %d %s", v, cores, encodeRig(seq)), Step: -1})
+			}
+		}
+		return res
+	}
 	// full CPUs
-	ci := idx - len(sh)
+	ci := idx - len(sh) - p.rigRandom(tier)
 	r := caseRand(seed, "C06", ci)
 	var in caseInput
 	fam := "hot"
